@@ -20,8 +20,12 @@ use std::io::ErrorKind;
 use std::io::Write;
 use std::net::{Shutdown, SocketAddr};
 use std::sync::Arc;
+#[cfg(not(roughenough_verif))]
 use std::thread;
+#[cfg(not(roughenough_verif))]
 use std::time::{Duration, Instant};
+#[cfg(roughenough_verif)]
+use verif_std::{thread, time::{Duration, Instant}};
 
 use crate::config::ServerConfig;
 use crate::key::LongTermKey;
